@@ -13,6 +13,7 @@ use vstd::std_specs::hash::*;
 use std::collections::{HashMap, HashSet};
 use std::hash::{BuildHasherDefault, Hash, Hasher};
 use core::slice::Iter;
+use std::iter::Chain;
 
 // ---- stand-ins for types of dependencies that cannot be linked into a single-file Verus run (TRUSTED) ----
 /// stand-in for rustc_hash::FxHasher: only its identity as a hasher type matters to the contracts
@@ -42,6 +43,22 @@ pub struct ExDrain<'a, K: 'a, V: 'a, A: std::alloc::Allocator>(std::collections:
 #[verifier::reject_recursive_types(T)]
 #[verifier::external_type_specification]
 pub struct ExOnce<T>(std::iter::Once<T>);
+
+#[verifier::external_body]
+#[verifier::reject_recursive_types(A)]
+#[verifier::reject_recursive_types(B)]
+#[verifier::external_type_specification]
+pub struct ExChain<A, B>(std::iter::Chain<A, B>);
+
+#[verifier::external_body]
+#[verifier::reject_recursive_types(T)]
+#[verifier::external_type_specification]
+pub struct ExOptionIntoIter<T>(std::option::IntoIter<T>);
+
+#[verifier::external_body]
+#[verifier::reject_recursive_types(I)]
+#[verifier::external_type_specification]
+pub struct ExFlatten<I: Iterator<Item: IntoIterator>>(std::iter::Flatten<I>);
 
 /// s enumerates the map m: one entry per key, each entry a pair of m, every key present
 pub open spec fn seq_enumerates_map<K, V>(s: Seq<(K, V)>, m: Map<K, V>) -> bool {
@@ -458,7 +475,31 @@ pub open spec fn full_merged<K, V>(a: Map<K, V>, b: Map<K, V>, r: Map<K, V>) -> 
 
 //@type ascent rel_index_read | RelIndexCombined
 //@impl ascent rel_index_read | impl<'a, Ind1, Ind2> RelIndexCombined<'a, Ind1, Ind2>
+//@fn new | r
+        ensures r.ind1 == ind1, r.ind2 == ind2,
 //@end
+
+// (the RelIndexRead impl of RelIndexCombined makes this Verus version panic in rust_to_vir_base (TyKind::Infer) on its
+// Chain<Flatten<..>> associated type: it is decided by the loop-free Kani harness combined_* in harness/idxcheck instead)
+
+//@impl ascent rel_index_read | impl<'a, K: Eq + std::hash::Hash, V: 'a + Clone> RelIndexRead<'a> for LatticeIndexType<K, V>
+    open spec fn ir_inv(&self) -> bool { obeys_key_model::<K>() && obeys_key_model::<V>() }
+    open spec fn ir_len(&self) -> nat { self@.len() }
+    #[verifier::prophetic]
+    open spec fn ir_get_post(&self, key: K, r: Option<std::collections::hash_set::Iter<'a, V>>) -> bool {
+        match r {
+            None => !self@.contains_key(key),
+            Some(it) => {
+                &&& self@.contains_key(key)
+                &&& it.remaining().len() == self@[key]@.len()
+                &&& it.remaining().no_duplicates()
+                // every stored element is yielded; with equal length and no duplicates the iterator ranges over exactly the set
+                &&& forall|x: V| self@[key]@.contains(x) ==> it.remaining().contains(&x)
+            }
+        }
+    }
+//@end
+
 '''
 
 EPILOGUE = '''
